@@ -27,8 +27,16 @@ JudgeClip(c) ==
            Robust(p) == \A q \in Nbrs(p) : OutStack(c.a, q) = OutStack(c.a, p) /\ InVb(c.vb, q) = InVb(c.vb, p)
            bad == { p \in Samples(c.box) : B(p) # A(p) /\ Robust(p) }
            gv == PG!Violations(c.b.outp, 30, FALSE)   \* no digits are requested from clip_to_viewbox
+           \* exactness at the border itself (the samples stay 1/8 away from it): no painted layer of the
+           \* result reaches beyond the viewBox by more than the 1/64 quantisation of the projection
+           over == { i \in 1..Len(c.b.layers) :
+                       LET bb == c.b.layers[i].bb
+                       IN c.b.layers[i].polys # <<>> /\
+                          (bb[1] < 64 * c.vb[1] - 1 \/ bb[2] < 64 * c.vb[2] - 1
+                           \/ bb[3] > 64 * (c.vb[1] + c.vb[3]) + 1 \/ bb[4] > 64 * (c.vb[2] + c.vb[4]) + 1) }
        IN IF bad # {} THEN LET p == CHOOSE p \in bad : TRUE
                            IN "BAD:clip-render@" \o ToString(p[1]) \o "," \o ToString(p[2])
+          ELSE IF over # {} THEN "BAD:clipped-layer-extends-outside-viewbox"
           ELSE IF gv # {} THEN "BAD:clipped-not-pico:" \o (CHOOSE v \in gv : TRUE)
           ELSE IF \E p \in Samples(c.box) : OutStack(c.a, p) # <<>> /\ ~InVb(c.vb, p) THEN "ok:clipped"
           ELSE "ok:nothing-outside"
